@@ -680,6 +680,10 @@ def preconditions(sm, R, rule):
             if is_logging_span(t["sp"]):
                 continue
             if t.get("trait") in ENV_TRAITS or lib.callee_is(t, "yield_", "yield_all"):
+                kind_ = ENV_TRAITS.get(t.get("trait"))
+                owners_ = CLOSURE_EFFECT_OWNERS.get(kind_)
+                if owners_ is not None and rule[:3] not in owners_:
+                    continue    # this property's rules do not look at that kind of effect
                 R.inconclusive(rule, "closure-with-effect:" + b["name"], "closure %s performs %s; closures are not spliced into the event skeleton" % (b["name"], t.get("callee")))
     # 4. every future that stands for an environment effect is actually polled.  The skeleton records an effect
     #    where its future is created; `let _ = storage.commit_or_log();` creates it and drops it unpolled —
@@ -697,6 +701,14 @@ def preconditions(sm, R, rule):
             R.inconclusive(rule, "skeleton-note:%s" % (note[0],), str(note))
 
 
+# an effect hidden in a closure that the skeleton does not splice only matters to the properties whose rules look at
+# that kind of effect (all properties, unless listed here)
+CLOSURE_EFFECT_OWNERS = {
+    "Cup": ("C01", "C02", "C03", "C04", "C06", "C07", "C08", "C10"),
+    "CupVerifier": ("C01", "C02"),
+    "Metrics": ("C02", "C06", "C10", "C18"),
+    "TimeSource": ("C06", "C08", "C12", "C18", "C19"),
+}
 FUTURE_OWNERS = {
     "Storage": ("C07", "C08", "C09", "C14", "C18"),
     "Policy": ("C05", "C11", "C12"),
